@@ -72,7 +72,8 @@ func sweepSendScope(g *G, idx funcIndex, cs *contractSet, prop string) ([]*Oblig
 		if c := g.contracts[k]; c != nil && !c.Trusted && !c.Inline && !g.inlineSet[k] {
 			return hasTag(c.AllTags(), prop)
 		}
-		if g.inlineSet[k] || (g.contracts[k] != nil && g.contracts[k].Inline) {
+		if g.inlineSet[k] || (g.contracts[k] != nil && g.contracts[k].Inline) || (g.contracts[k] == nil && fn.Parent() == nil && loopFreeSmall(fn)) {
+			// (a loop-free helper without contract is verified inside its callers, like an inline function)
 			cl := callers[k]
 			if len(cl) == 0 {
 				return false
